@@ -86,6 +86,10 @@ def significant(toks):
     return [t for t in toks if t not in (' ', '/*c*/')]
 
 
+# spellings of the alphabet that are identifiers (an escaped bracket or quote is part of the name)
+IDENTS = {'a', 'important', '\\{', 'x\\(y', 'x\\28 ', 'x\\[y', 'x\\"y'}
+
+
 def is_malformed_declaration(toks):
     ok, depths = balanced(toks)
     if not ok or "'" in toks:
@@ -98,9 +102,9 @@ def is_malformed_declaration(toks):
     if sig[0].startswith('@'):
         return False
     # IDENT ':' ... may be a valid declaration (or one whose validity is a matter of the value grammar): excluded
-    if len(sig) >= 2 and sig[0] in ('a', 'important', '-', '\\{') and sig[1] == ':':
+    if len(sig) >= 2 and sig[0] in IDENTS | {'-'} and sig[1] == ':':
         return False
-    if sig[0] == '-' and len(sig) >= 3 and sig[1] in ('a', 'important') and sig[2] == ':':
+    if sig[0] == '-' and len(sig) >= 3 and sig[1] in IDENTS and sig[2] == ':':
         return False
     # "* a :" / "_a:" hacks start with a CHAR and are malformed by the grammar: kept
     return True
@@ -142,6 +146,16 @@ def is_unknown_atrule_prelude(toks):
 _SILENT = {'diff': None}
 
 
+def _no_blanks_in_other(p):
+    """an unknown construct kept inside a block is written from its tokens: where a comment stood a blank may stay (presentation of
+    the damaged construct itself, not content)"""
+    if isinstance(p, tuple):
+        if len(p) == 3 and p[0] == 'other' and isinstance(p[2], str):
+            return (p[0], p[1], ''.join(p[2].split()))
+        return tuple(_no_blanks_in_other(x) for x in p)
+    return p
+
+
 def parse_nc(text):
     with guard.collect_log() as log:
         sheet = cssutils.parseString(text)
@@ -157,7 +171,7 @@ def parse_nc(text):
     if _SILENT['diff'] is None:
         # ... and with comment parsing switched off: the comment-free projection is the same
         p3 = P.proj(cssutils.CSSParser(parseComments=False).parseString(text), comments=False)
-        if p3 != p:
+        if _no_blanks_in_other(p3) != _no_blanks_in_other(p):
             _SILENT['diff'] = (p, p3, 'parseComments=False')
     return p, len(log.records)
 
